@@ -301,6 +301,19 @@ def run(ck: Check):
     add({"op": "datetime_cmp", "a": [2001, 2, 28, 23, 0, 0, 0, 0], "b": [2001, 3, 1, 0, 30, 0, 0, 120]}, kind="datetime_cmp")
     add({"op": "datetime_cmp", "a": [2001, 1, 1, 0, 0, 0, 1, None], "b": [2001, 1, 1, 0, 0, 0, 2, None]}, kind="datetime_cmp")
     add({"op": "datetime_cmp", "a": [2001, 1, 1, 24, 0, 0, 0, None], "b": [2001, 1, 2, 0, 0, 0, 0, None]}, kind="datetime_cmp")
+    for _ in range(150 * N):
+        v = g_value_datetime(r, small=True)
+        v[0] = r.choice([1, 9999, r.randint(1, 9999)])
+        v[1], v[2] = g_md(r, v[0])
+        v[6] = r.choice([0, 1000, 123456000, 999999000, v[6] - v[6] % 1000])
+        if v[3] == 24:
+            v[3] = 23
+        add({"op": "datetime_std", "v": v}, kind="datetime_std")
+        t = g_value_time(r)
+        t[3] = r.choice([0, 1000, 500000000, t[3] - t[3] % 1000])
+        if t[0] == 24:
+            t[0] = 0
+        add({"op": "time_std", "v": t}, kind="time_std")
     for _ in range(400 * N):
         add({"op": "period", "s": g_period(r)}, kind="period")
         add({"op": "duration", "s": g_duration(r)}, kind="duration")
@@ -385,6 +398,24 @@ def run(ck: Check):
             ck.failure(f"{k}-order-disagrees-with-timeline",
                        f"{k} comparison of {it[1]['a']} and {it[1]['b']} gives {it[2]['ok']} (lt,eq,le,gt,ge,ne), the timeline says otherwise",
                        {"op": it[1], "impl": it[2]})
+    items = [it for it in cases_of("datetime_std")]
+    ok_items = [it for it in items if "ok" in it[2]]
+    for it in items:
+        distinct.add(("datetime_std", tuple(it[1]["v"])))
+        if "err" in it[2]:
+            ck.failure("datetime-std-conversion-raises", f"XmlDateTime{it[1]['v']}.to_datetime() raised {it[2]['err']}", {"op": it[1], "impl": it[2]})
+    terms = [f"({tup(it[1]['v'])}, {tup(it[2]['ok'])}, {cZ(it[2]['us'])})" for it in ok_items]
+    for it in run_pred("oracle_datetime_std", "list (option Z) * list (option Z) * Z", "oracle_datetime_std", ok_items, terms):
+        ck.failure("datetime-std-conversion", f"XmlDateTime{it[1]['v']} -> datetime -> XmlDateTime gives {it[2]}", {"op": it[1], "impl": it[2]})
+    items = [it for it in cases_of("time_std")]
+    ok_items = [it for it in items if "ok" in it[2]]
+    for it in items:
+        distinct.add(("time_std", tuple(it[1]["v"])))
+        if "err" in it[2]:
+            ck.failure("time-std-conversion-raises", f"XmlTime{it[1]['v']}.to_time() raised {it[2]['err']}", {"op": it[1], "impl": it[2]})
+    terms = [f"({tup(it[1]['v'])}, {tup(it[2]['ok'])}, {tup(it[2]['t'])})" for it in ok_items]
+    for it in run_pred("oracle_time_std", "list (option Z) * list (option Z) * list (option Z)", "oracle_time_std", ok_items, terms):
+        ck.failure("time-std-conversion", f"XmlTime{it[1]['v']} -> time -> XmlTime gives {it[2]}", {"op": it[1], "impl": it[2]})
     items = cases_of("period")
     terms = [f"({cstr(it[1]['s'])}, {obs_tuple(it[2])})" for it in items]
     for it in items:
